@@ -128,15 +128,55 @@ func ReachFacts(fn *ssa.Function, starts []Point, targets, cuts *Set) []Hit {
 		it := q[qi]
 		b := it.p.B
 		forced := -1
+		if it.p.I == 0 && phiCond(b) != nil {
+			forced = forcedSucc(b, it.from)
+		}
+		if it.p.I == 0 {
+			// facts about values (re)defined in this block are stale once the block is entered again
+			if len(it.facts) > 0 {
+				var keep []fact
+				for _, f := range it.facts {
+					if vi, ok := f.v.(ssa.Instruction); ok && vi.Block() == b {
+						continue
+					}
+					keep = append(keep, f)
+				}
+				it.facts = keep
+			}
+			// boolean phis: the operand for the edge we came in on may be a constant, or a value whose
+			// truth is already known on this path (nested `a && (b || c)` value phis)
+			if it.from != nil {
+				for _, in := range b.Instrs {
+					phi, ok := in.(*ssa.Phi)
+					if !ok {
+						break
+					}
+					for k, p := range b.Preds {
+						if p != it.from || len(it.facts) >= 10 {
+							continue
+						}
+						op := phi.Edges[k]
+						if cst, ok := op.(*ssa.Const); ok && cst.Value != nil && (cst.Value.ExactString() == "true" || cst.Value.ExactString() == "false") {
+							it.facts = append(append([]fact{}, it.facts...), fact{phi, "", cst.Value.ExactString() == "true"})
+						} else {
+							for _, f := range it.facts {
+								if f.v == op && f.c == "" {
+									it.facts = append(append([]fact{}, it.facts...), fact{phi, "", f.eq})
+									break
+								}
+							}
+						}
+						break
+					}
+				}
+			}
+		}
 		if it.p.I == 0 {
 			k := key(b, it.from, it.facts)
 			if visited[k] {
 				continue
 			}
 			visited[k] = true
-			if phiCond(b) != nil {
-				forced = forcedSucc(b, it.from)
-			}
 		}
 		stopped := false
 		for i := it.p.I; i < len(b.Instrs); i++ {
